@@ -20,7 +20,8 @@ def emit (es : List Err) : Gen := fun b st =>
   | none => ⟨es, .done, st⟩
   | some k => if es.length < k then ⟨es, .done, st⟩ else ⟨es.take k, .budget, st⟩
 
-def nothing : Gen := emit []
+/-- a stage that yields nothing: a unit for sequencing under every budget -/
+def nothing : Gen := fun _ st => ⟨[], .done, st⟩
 
 def stopG (s : Stop) : Gen := fun _ st => ⟨[], s, st⟩
 def raiseG (e : Exc) : Gen := stopG (.raised e)
